@@ -423,3 +423,31 @@ proof fn canary_false_from_offer_post(file: PV, en: Seq<EnrichedFixture>, avx: S
     requires offer_post(en, avx, file, None, o), en.len() > 0,
     ensures false,
 {}
+
+// ---- NON-VACUITY of the assumed contract of get_available_fixtures, by WITNESS (avail_post is hidden inside the exec
+// functions, so their canaries do not exercise it; a failing `requires avail_post ... ensures false` canary costs 35 s of
+// fruitless search): a database with one definition d gives the one-entry list [d] for d's own file
+proof fn lemma_walk_empty(dir: PV, v: AvV, n: Seq<char>)
+    ensures avail_walk(Seq::<DefV>::empty(), dir, v, n) is None,
+    decreases dir.len(),
+{
+    if pv_has_parent(dir) && dir.len() > 0 { lemma_walk_empty(dir.drop_last(), v, n); }
+}
+pub proof fn lemma_avail_post_satisfiable(d: DefV, td: Set<PV>, imp: spec_fn(PV) -> Set<Seq<char>>)
+    ensures avail_post(seq![d], AvV { defs: Map::<Seq<char>, Seq<DefV>>::empty().insert(d.name, seq![d]), td: td, imp: imp }, d.file),
+{
+    let a = AvV { defs: Map::<Seq<char>, Seq<DefV>>::empty().insert(d.name, seq![d]), td: td, imp: imp };
+    let av = seq![d];
+    assert(bucket(a.defs, d.name) == seq![d]);
+    assert(p_same(d.file, fs_true())(d));
+    assert(first_match(seq![d], p_same(d.file, fs_true())) == Some(d));
+    assert(avail_pick(a, d.file, d.name) == Some(d));
+    assert forall|n: Seq<char>| n != d.name implies avail_pick(a, d.file, n) is None by {
+        assert(bucket(a.defs, n) =~= Seq::<DefV>::empty());
+        if pv_has_parent(d.file) && d.file.len() > 0 { lemma_walk_empty(d.file.drop_last(), a, n); }
+    }
+    assert forall|n: Seq<char>| (#[trigger] avail_pick(a, d.file, n)) is Some implies exists|k: int| 0 <= k < av.len() && (#[trigger] av[k]).name == n by {
+        assert(n == d.name);
+        assert(av[0].name == n);
+    }
+}
